@@ -299,9 +299,14 @@ func slowWriterRun(e *concEnv) string {
 				wantOld, wantNew = sc.f(oldB), sc.f(newB)
 			}
 			entered, release := make(chan struct{}), make(chan struct{})
-			var once sync.Once
+			// (held up at its fifth token: by then one token has been dropped and a later one moved into its place,
+			// so the list in memory is neither the old nor the new one)
+			var calls int64
 			slow := bundle.Predicate(func(t bundle.Token) bool {
-				once.Do(func() { close(entered); <-release })
+				if atomic.AddInt64(&calls, 1) == 5 {
+					close(entered)
+					<-release
+				}
 				return keep(t)
 			})
 			res := make(chan string, 2)
